@@ -42,7 +42,10 @@ def _rechunk(kind, tab, rng):
         n = tab.num_rows
         cuts = sorted(set(rng.sample(range(1, n), min(n - 1, rng.randint(1, 3))) + rng.choice([[1], [n - 1], []]))) if n > 1 else []
         parts = [tab.slice(a, b - a) for a, b in zip([0] + cuts, cuts + [n])]
-        return pa.concat_tables(parts)
+        out = pa.concat_tables(parts)
+        if rng.random() < 0.5:      # columns of one table may have different chunk layouts: a contiguous first column
+            out = out.add_column(0, "row_id", pa.array(list(range(n))))
+        return out
     if kind in ("polars", "polars-lazy"):
         import polars as pl
         df = tab.collect() if kind == "polars-lazy" else tab
@@ -105,6 +108,8 @@ def check_case(case):
                     d = {k: v for k, v in d.items() if k != "junk"}
                 else:
                     d["extra_text"] = ["t%d" % (i % 3) for i in range(len(d["variant"]))]
+                    # an unrelated column with missing values: its gaps must not remove rows from any metric
+                    d["extra_nullable"] = [(None if i % 4 == 1 else float(i)) for i in range(len(d["variant"]))]
                 tab = B.make_table(kind, d)
                 if variant == "rechunked":
                     tab = _rechunk(kind, tab, rng)
